@@ -89,6 +89,8 @@ func driverTable(gen int, seed int64, nkeys int) *conc.Table {
 	default:
 		t = conc.NewTF(seed, nkeys)
 	}
+	// the upper int tokens of the driver's range stand for values at the edges of the 8- and 16-bit ranges
+	t.WithInt(5, 127).WithInt(6, 128).WithInt(7, 255).WithInt(8, 256).WithInt(9, 32768)
 	return t.WithFloat(-4, math.Inf(-1)).WithFloat(4, math.Inf(1))
 }
 
@@ -1465,6 +1467,17 @@ func cmdDrive(args []string) int {
 				logged(model.Op{Op: "SetTF", R: short, V: model.Val{K: "str", V: 2}, Vs: []model.Val{idx(35 + 64)}})
 				logged(model.Op{Op: "SetTF", R: short, V: model.Val{K: "int", V: 4}, Vs: []model.Val{idx(0), idx(32)}})
 				logged(model.Op{Op: "SetTF", R: short, V: model.Val{K: "int", V: 5}, Vs: []model.Val{idx(1), key(1), idx(64), idx(32)}})
+				// removal through object -> list -> object and object -> list -> list -> object
+				rec := logged(model.Op{Op: "NewObject", V: none, Vs: []model.Val{{K: "str", V: 1}, {K: "int", V: 1}, {K: "str", V: 3}, {K: "int", V: 2}}}).V
+				rows := logged(model.Op{Op: "NewList", V: none, Vs: []model.Val{{K: "ref", V: rec}, {K: "int", V: 5}}}).V
+				grid := logged(model.Op{Op: "NewList", V: none, Vs: []model.Val{{K: "ref", V: rows}}}).V
+				top := logged(model.Op{Op: "NewObject", V: none, Vs: []model.Val{{K: "str", V: 2}, {K: "ref", V: rows}, {K: "str", V: 4}, {K: "ref", V: grid}}}).V
+				logged(model.Op{Op: "GetTF", R: top, V: none, Vs: []model.Val{key(2), idx(0), key(1)}})
+				logged(model.Op{Op: "UnsetTF", R: top, V: none, Vs: []model.Val{key(2), idx(0), key(1)}})
+				logged(model.Op{Op: "UnsetTF", R: top, V: none, Vs: []model.Val{key(4), idx(0), idx(0), key(3)}})
+				logged(model.Op{Op: "SetTF", R: top, V: model.Val{K: "int", V: 9}, Vs: []model.Val{key(4), idx(0), idx(0), key(1)}})
+				logged(model.Op{Op: "UnsetTF", R: grid, V: none, Vs: []model.Val{idx(0), idx(0), key(1)}})
+				logged(model.Op{Op: "UnsetTF", R: top, V: none, Vs: []model.Val{key(2), idx(1)}})
 				holder := logged(model.Op{Op: "NewObject", V: none}).V
 				logged(model.Op{Op: "SetTF", R: holder, V: model.Val{K: "int", V: 6}, Vs: []model.Val{key(2), idx(32)}})
 				logged(model.Op{Op: "SetTF", R: holder, V: model.Val{K: "int", V: 7}, Vs: []model.Val{key(2), idx(33 + 32)}})
